@@ -56,10 +56,20 @@ def res_term(out):
 def run_construct(v):
     try:
         s = ScoringScheme(v)
-        return {"ok": s.penalty_vectors}
+        pv = s.penalty_vectors
+        if not (isinstance(pv, list) and len(pv) == 2 and all(isinstance(x, list) and len(x) == 6 for x in pv)):
+            # accepted, but what the object holds is not two vectors of six penalties: no encoding as a scheme of the model - reported
+            # as it is (a violation with the input as replay), never passed to Coq
+            return {"harness_exception": "AcceptedButMalformed", "trace": "accepted, penalty_vectors = " + repr(pv)[:300]}
+        return {"ok": pv}
     except Exception as e:
         k = exc_class(e)
-        return {"err": k if k in ("InvalidScheme", "NonRealPositive", "ForbiddenAssociation") else "MulValueError" if k == "ValueError" else k}
+        if k in ("InvalidScheme", "NonRealPositive", "ForbiddenAssociation"):
+            return {"err": k}
+        if k == "ValueError":
+            return {"err": "MulValueError"}
+        # any other exception class is not one of the documented refusals
+        return {"harness_exception": k, "trace": str(e)[:300]}
 
 
 def valid_tuple(b, t):
@@ -132,7 +142,13 @@ class Construct(Suite):
                   {"list": [{"list": ok_b}, {"list": ok_t}, {"list": ok_t}]}, {"other": "none"}, {"other": "str"}, jnum(1),
                   {"list": [{"list": ok_b[:5]}, {"list": ok_t}]}, {"list": [{"list": ok_b}, {"list": ok_t + [jnum(0)]}]},
                   {"list": [{"list": ok_b[:5] + [{"other": "str"}]}, {"list": ok_t[:5]}]},
-                  {"list": [jnum(1), {"list": ok_t}]}, {"list": [{"list": ok_b}, {"other": "none"}]}]
+                  {"list": [jnum(1), {"list": ok_t}]}, {"list": [{"list": ok_b}, {"other": "none"}]},
+                  # one vector of the right length, the other one too short / too long / empty (each side)
+                  {"list": [{"list": ok_b}, {"list": ok_t[:5]}]}, {"list": [{"list": ok_b}, {"list": ok_t[:3]}]},
+                  {"list": [{"list": ok_b}, {"list": []}]}, {"list": [{"list": ok_b}, {"list": ok_t + [jnum(1), jnum(1)]}]},
+                  {"list": [{"list": ok_b + [jnum(1)]}, {"list": ok_t}]}, {"list": [{"list": ok_b[:3]}, {"list": ok_t}]},
+                  {"list": [{"list": []}, {"list": ok_t}]}, {"list": [{"list": ok_b[:5]}, {"list": ok_t[:5]}]},
+                  {"list": [{"list": ok_b + [jnum(0)]}, {"list": ok_t + [jnum(0)]}]}]
         for o in odd:
             for v in (0, 1):
                 for i in range(6):
